@@ -41,12 +41,19 @@ func (e Event) String() string {
 }
 
 type Trace struct {
-	mu     sync.Mutex
-	cond   *sync.Cond
-	start  time.Time
-	events []Event
-	out    io.Writer
+	mu      sync.Mutex
+	cond    *sync.Cond
+	start   time.Time
+	events  []Event
+	out     io.Writer
+	dropped int
+	bytes   int
 }
+
+// maxEvents bounds a trace: every scenario is a bounded script (the largest legitimate traces have a few
+// thousand events). Beyond the bound one `harness.runaway` event is recorded and the rest is counted only.
+const maxEvents = 30000
+const maxTraceBytes = 6 << 20
 
 func newTrace() *Trace {
 	t := &Trace{start: time.Now(), out: os.Stdout}
@@ -57,6 +64,17 @@ func newTrace() *Trace {
 // log appends an event and prints it at once (a crash of the process must not lose the trace).
 func (t *Trace) log(peer, ev string, args ...string) {
 	t.mu.Lock()
+	for _, a := range args {
+		t.bytes += len(a)
+	}
+	if (len(t.events) >= maxEvents || t.bytes >= maxTraceBytes) && !strings.HasPrefix(ev, "api.") && ev != "goroutines" && ev != "harness.fail" {
+		t.dropped++
+		if t.dropped > 1 {
+			t.mu.Unlock()
+			return
+		}
+		peer, ev, args = "-", "harness.runaway", []string{ev}
+	}
 	e := Event{Seq: len(t.events), T: int64(time.Since(t.start)), Peer: peer, Ev: ev, Args: args}
 	t.events = append(t.events, e)
 	if t.out != nil {
@@ -476,14 +494,15 @@ type Plugin struct {
 	peer *Peer
 	mu   sync.Mutex
 
-	Caps        []bgp.Capability
-	OpenVeto    *bgp.Notification // returned from OnOpenMessage
-	OpenDelay   time.Duration     // time spent inside OnOpenMessage
-	CloseDelay  time.Duration     // time spent inside OnClose
-	MutateCaps  bool              // GetCapabilities returns the same slice every time, updated in place
-	HandlerVeto int               // 1-based index of the UPDATE whose handler returns VetoNotif (0 = never)
-	VetoNotif   *bgp.Notification
-	NilHandler  bool
+	Caps         []bgp.Capability
+	OpenVeto     *bgp.Notification // returned from OnOpenMessage
+	OpenDelay    time.Duration     // time spent inside OnOpenMessage
+	CloseDelay   time.Duration     // time spent inside OnClose
+	MutateCaps   bool              // GetCapabilities returns the same slice every time, updated in place
+	HandlerVeto  int               // 1-based index of the UPDATE whose handler returns VetoNotif (0 = never)
+	HandlerDelay time.Duration     // time spent inside every handler call
+	VetoNotif    *bgp.Notification
+	NilHandler   bool
 	// WriteUpdate calls issued from inside callbacks
 	WriteInEstablished [][]byte
 	WriteInHandler     [][]byte
@@ -593,6 +612,9 @@ func (pl *Plugin) OnEstablished(c bgp.PeerConfig, w bgp.UpdateMessageWriter) bgp
 		for _, b := range pl.WriteInHandler {
 			pl.write(w, wid, append([]byte{byte(pl.writerSeq), byte(k)}, b...))
 		}
+		if pl.HandlerDelay > 0 {
+			time.Sleep(pl.HandlerDelay)
+		}
 		var n *bgp.Notification
 		if pl.HandlerVeto == k {
 			n = pl.VetoNotif
@@ -655,6 +677,7 @@ type Conn struct {
 	ended  string // "", "eof", "rst"
 	nsent  int
 	closed bool
+	finned bool // half-closed by us: the end corebgp makes is still observed
 }
 
 func newRemote(p *Peer) *Remote { return &Remote{peer: p, accCh: make(chan *Conn, 64)} }
@@ -793,7 +816,8 @@ func (c *Conn) readLoop() {
 		}
 		if err != nil {
 			c.mu.Lock()
-			closed := c.closed
+			closed := c.closed && !c.finned
+			finned := c.finned
 			c.mu.Unlock()
 			e := "rst"
 			if err == io.EOF {
@@ -801,6 +825,9 @@ func (c *Conn) readLoop() {
 			}
 			if !closed {
 				c.r.tr().log(c.r.peer.key, "r."+e, c.id)
+			}
+			if finned {
+				c.c.Close()
 			}
 			// only now visible to waiters: the event is in the trace before anyone acts on the end
 			c.mu.Lock()
@@ -850,6 +877,24 @@ func (c *Conn) close() {
 	c.mu.Unlock()
 	c.r.tr().log(c.r.peer.key, "r.close", c.id)
 	c.c.Close()
+}
+
+// fin half-closes the connection: everything sent before it will be read by corebgp before it sees the end
+// of the stream (no reset can overtake data). The connection is closed once corebgp has closed its side.
+func (c *Conn) fin() {
+	if c == nil {
+		return
+	}
+	c.mu.Lock()
+	c.closed = true
+	c.finned = true
+	c.mu.Unlock()
+	c.r.tr().log(c.r.peer.key, "r.close", c.id, "fin")
+	if tc, ok := c.c.(*net.TCPConn); ok {
+		tc.CloseWrite()
+	} else {
+		c.c.Close()
+	}
 }
 
 func (c *Conn) reset() {
